@@ -30,7 +30,9 @@ Bases  == { <<>>, <<U(3, "s")>>, <<U(8, "s"), Bool>> }
 F16 == [k |-> "f", n |-> 16, m |-> "s"]
 Extras == { <<U(8, "s")>>, <<Bool>>, <<U(12, "t"), Var(U(3, "s"), 2)>>,
             <<F16>>,                                     \* a float appended at a byte boundary
-            <<Del(St(<<U(8, "s")>>), 16)>> }             \* the appended field is itself of a delimited type
+            <<Del(St(<<U(8, "s")>>), 16)>>,              \* the appended field is itself of a delimited type
+            <<Fix(U(8, "s"), 2)>>,                       \* a fixed-length octet array (read in one piece by an implementation)
+            <<Bool, Fix(U(8, "s"), 2)>> }                \* the same, off a byte boundary
 Ctxs == { St(<<Hole>>),
           St(<<U(3, "s"), Hole, U(8, "s")>>),
           St(<<Fix(Hole, 2), U(8, "s")>>),
